@@ -170,7 +170,7 @@ func checkC09(r *core.Run, p *core.Program) {
 			if rt == "EndDocumentRule" {
 				want = "ctx.EndDocument()"
 			}
-			r.Check("C09.end-document", rt+".OnEndDocument", pos[rt+".OnEndDocument"], got == want, "context "+rt+" handles end of document with `"+got+"`, required `"+want+"`: a document cut inside this context would be accepted")
+			r.Check("C09.end-document", rt+".OnEndDocument", pos[rt+".OnEndDocument"], sameEffect(got, []string{want}), "context "+rt+" handles end of document with `"+got+"`, required `"+want+"`: a document cut inside this context would be accepted")
 		}
 		r.Floor("C09.end-document", "contexts", n, 20)
 		checkCtxPrimitives(r, p, a, "C09.end-document", "EndContainer", "beginContainer")
@@ -242,7 +242,7 @@ func checkC09(r *core.Run, p *core.Program) {
 		e := &effectCtx{a: a, p: p, ctxType: ctxT.Type().(*types.Named)}
 		got := e.summarize(f.Obj)
 		want := "for(;?pure:len($_this.builderStack)>1;){def($v1=?pure:len($_this.builderStack)); iface.BuildArtificiallyEndContainer($_this); if(?pure:len($_this.builderStack)>=$v1){ctx.UnstackBuilder()}}"
-		r.Check("C09.on-error", "builder.Context.ArtificiallyTerminate|loop shape", f.Decl.Pos(), got == want, "the unwinding loop does `"+got+"`; required `"+want+"`")
+		r.Check("C09.on-error", "builder.Context.ArtificiallyTerminate|loop shape", f.Decl.Pos(), sameEffect(got, []string{want}), "the unwinding loop does `"+got+"`; required `"+want+"`")
 	}
 
 	// ---- cte error
